@@ -236,8 +236,9 @@ def conditions(prop, tier):
         for op in (2, 3):
             lo_hi = [(0, 120)] if not q else [(0, 120)]
             for lo, hi in lo_hi:
-                out.append(dict(name='C11.mutate.fam%d.%s' % (fam, ('replace', 'insert')[op - 2]), fn='mutate', fixed=dict(fam=fam, op=op), timeout=t,
-                                extra_pre=['ti % 9 == fam'] if q else [],
+              for half in ((0, 1) if q else (None,)):
+                out.append(dict(name='C11.mutate.fam%d.%s%s' % (fam, ('replace', 'insert')[op - 2], '' if half is None else '.p%d' % half), fn='mutate', fixed=dict(fam=fam, op=op), timeout=t,
+                                extra_pre=['ti % 9 == fam', 'k % 2 == ' + str(half)] if q else [],
                                 bounds='one token %s at a symbolic position of the rich sentence of family %d, the new token\'s type chosen by symbolic '
                                        'index over all token names and literals%s' % (('replaced', 'inserted')[op - 2], fam, ' (quick: every 9th type)' if q else '')))
     return out
